@@ -325,6 +325,8 @@ def exec_prim(case):
             elif op == "roots":
                 import cmath
                 c = cmath.rect(ev.get("mag", 1.0), a[0] * math.pi / a[1])
+                if ev.get("prefull", 0):
+                    maths.roots(c, a[2], normalize=False)          # history: the full (non-unit) roots of the same number were asked for just before
                 e["ret"] = [[rat(cmath.phase(r) / math.pi, 256), rat(abs(r) ** 2)] for r in maths.roots(c, a[2])]
             elif op == "rotate_around_axis":
                 ax, ang = ROT_ANGLE[a[1]]
@@ -416,7 +418,7 @@ def _prim_cases(rng, thorough):
     for n in (1, 2, 3, 4, 5, 6):
         for q in (1, 2, 3, 4):
             for k in range(-q + 1, q):
-                evs.append({"op": "roots", "a": [k, q, n], "mag": rng.choice([1.0, 2.0, 0.5, 1e-3])})
+                evs.append({"op": "roots", "a": [k, q, n], "mag": rng.choice([1.0, 2.0, 0.5, 1e-3]), "prefull": rng.randint(0, 1)})
     for k in range(1, 9):
         for _ in range(12 if thorough else 4):
             v = list(rng.choice(vecs))
